@@ -37,7 +37,7 @@ var c07Hosts = []string{
 
 var c07IPs = []string{"192.168.1.5", "192.168.1.55", "10.0.0.1", "2001:db8::1", "127.0.0.1"}
 
-var c07CIDs = []string{"", "", "phone", "my-laptop", "tv"}
+var c07CIDs = []string{"", "", "phone", "my-laptop", "tv", "Sys-Kiosk"}
 
 // c07ClientTables are the FindClient tables the history switches between.
 var c07ClientTables = [][]struct {
@@ -48,6 +48,9 @@ var c07ClientTables = [][]struct {
 	{},
 	{{"192.168.1.5", "Kitchen", false}, {"phone", "Alices Phone", false}, {"10.0.0.1", "router", false}},
 	{{"192.168.1.5", "Kitchen", true}, {"phone", "Alices Phone", false}, {"tv", "TV", true}, {"2001:db8::1", "srv6", false}},
+	// upper-case K / S past the start of a name: terms starting with k / s
+	// (stringutil.ContainsFold missed them, repaired as f792c49).
+	{{"127.0.0.1", "My Kitchen", false}, {"192.168.1.55", "TV Set", false}, {"my-laptop", "Alices laptoP", false}},
 }
 
 var c07IgnoreLists = [][]string{
@@ -416,6 +419,9 @@ func (h *c07H) op() {
 		en := !r.Chance(1, 6)
 		h.ignore = r.Intn(len(c07IgnoreLists))
 		h.table = r.Intn(len(c07ClientTables))
+		if c07ForceTable >= 0 {
+			h.table = c07ForceTable
+		}
 		body, _ := json.Marshal(map[string]any{"enabled": en, "anonymize_client_ip": false,
 			"interval": float64(timeutil.Day.Milliseconds()), "ignored": c07IgnoreLists[h.ignore]})
 		w := httptest.NewRecorder()
@@ -895,7 +901,12 @@ func (h *c07H) battery(full bool) {
 	}
 	terms := append([]string{}, c07Terms...)
 	vfShuffle(r, terms)
-	for _, term := range terms[:6] {
+	terms = terms[:6]
+	if h.table == 3 {
+		// names with an upper-case K / S past the start: always ask for them
+		terms = append(terms, "kitchen", "set", "s laptop", "itchen")
+	}
+	for _, term := range terms {
 		q := c07Query{term: term}
 		if r.Chance(1, 4) {
 			q.status = vfPick(r, c07Statuses)
@@ -904,6 +915,9 @@ func (h *c07H) battery(full bool) {
 		if w := h.expected(q); resp.code == 0 && !c07Eq(resp.ids, w) {
 			h.fail("filters-exact", "search=%s status=%s returned %v, want %v", term, q.status, resp.ids, w)
 		} else if len(w) > 0 && len(w) < len(all) {
+			if term == "kitchen" || term == "set" || term == "s laptop" || term == "kiosk" {
+				h.cls["term-ks-initial-selects"] = true
+			}
 			if strings.HasPrefix(term, `"`) {
 				h.cls["term-strict-selects"] = true
 			} else {
@@ -950,11 +964,18 @@ func (h *c07H) battery(full bool) {
 // c07Stuck is set once a flush never finished: later histories are skipped.
 var c07Stuck bool
 
+// c07ForceTable pins the client table of a history (prelude scenario with the
+// names that hold an upper-case K / S past their start); -1 = random.
+var c07ForceTable = -1
+
 var c07Terms = []string{
 	"example", "EXAMPLE.ORG", `"example.org"`, `"ads.example.org"`, "ads", "192.168.1.5", `"192.168.1.5"`,
 	"192.168.1", "phone", `"phone"`, "Kitchen", `"kitchen"`, "alices", "пример", `"пример.example"`,
 	"2001:db8", "laptop", "nomatch-zzz", `""`, "a.b", ".", "tv", "router", "xn--",
 	"a&b", "<y", `"a&b.example.org"`, "&",
+	// first letter k / s (and others) against upper-case letters past the start of a client name
+	"kitchen", "itchen", "set", "s laptop", "KITCHEN", `"my kitchen"`, `"tv set"`, "v se", "p",
+	"kiosk", "sys-k", `"sys-kiosk"`,
 }
 
 func c07History(t *testing.T, out *vfOut, r *vfRand, nops int, mem uint, fileEnabled bool, tag string) {
@@ -965,6 +986,9 @@ func c07History(t *testing.T, out *vfOut, r *vfRand, nops int, mem uint, fileEna
 	defer os.RemoveAll(dir)
 	h := &c07H{t: t, ctx: context.Background(), r: r, dir: dir, byNS: map[int64]*c07Rec{}, cls: map[string]bool{},
 		table: r.Intn(len(c07ClientTables)), ignore: r.Intn(2)}
+	if c07ForceTable >= 0 {
+		h.table = c07ForceTable
+	}
 	h.newLog(mem, fileEnabled, true)
 	c0 := h.coqConfig()
 	if mem == 0 {
@@ -1135,6 +1159,14 @@ func TestVerifC07(t *testing.T) {
 		if !c07Stuck {
 			c07ClearRacePrelude(t, out, pr, mem)
 		}
+	}
+	// names with an upper-case K / S past the start, terms kitchen / set /
+	// "s laptop" / itchen asked in every battery (defect repaired as f792c49)
+	if !c07Stuck {
+		c07ForceTable = 3
+		c07History(t, out, vfNewRand(11), 60, 6, true, "prelude-ks-names")
+		c07History(t, out, vfNewRand(12), 40, 2, true, "prelude-ks-names")
+		c07ForceTable = -1
 	}
 	// ---- random histories
 	rnd := vfNewRand(out.Seed)
